@@ -164,6 +164,7 @@ def run(repo, tier):
     )
     r.trusted_base = ["Python ast", "sa/absint.py", "NumPy promotion oracle (rules/C08.py:promote, np_dtype)", "sa/oracles/targets.py"]
     r.assumptions = ["inputs are numpy scalars of the declared dtype (the target casts arguments)", "operands of an operation are typed symbols (sub-expressions compose by induction)"]
+    r.rule("R8.6", "normalize_like replaces the like expression of a constant by an operand of the same static type, for every kind it descends through and every operand dtype tuple", floor=1)
     r.rule("R8.5", "an operation on a symbol and a constant whose like is a bare scalar type (float, int, complex without a width) has the static type NumPy computes for the emitted, strongly typed constant (one obligation per constant type over 12 kind x symbol combinations)", floor=3)
     r.rule("R8.1", "for each kind and operand dtype tuple: static type (Expr.get_type) == dtype computed by the NumPy template", floor=150)
     _MAKE_COMPLEX["func"] = repo.func("utils.py", "make_complex")
@@ -222,6 +223,51 @@ def run(repo, tier):
         r.ob("R8.2", f"{key0} has a typing rule", typed_any or kind in untyped, "", T.where(kind))
     if untyped:
         r.info("R8.2", f"kinds with a NumPy template but no rule in Expr.get_type (printing such a graph raises NotImplementedError; not a wrong type): {sorted(set(untyped))}")
+
+    # ------------------------------------------------------------------ R8.6 the like operand of a constant keeps its type under normalize_like
+    # `ctx.constant(v, like)` stores normalize_like(like): an operation is replaced by one of its operands "of the same type".  The
+    # constant is later materialised in the type of that operand (R8.4), so the replacement must not change the type: for every
+    # kind normalize_like descends through unconditionally and every tuple of operand dtypes, the static type of the operation must
+    # equal the type of the operand it is replaced by.
+    nl = repo.func("expr.py", "normalize_like")
+    descend = {}
+    for node in ast.walk(nl):
+        if isinstance(node, ast.If) and isinstance(node.test, ast.Compare) and len(node.test.ops) == 1 and dotted(node.test.left) == f"{nl.args.args[0].arg}.kind":
+            c_ = node.test.comparators[0]
+            kinds_ = None
+            if isinstance(node.test.ops[0], ast.In) and isinstance(c_, (ast.Set, ast.Tuple, ast.List)) and all(isinstance(x, ast.Constant) for x in c_.elts):
+                kinds_ = [x.value for x in c_.elts]
+            elif isinstance(node.test.ops[0], ast.Eq) and isinstance(c_, ast.Constant):
+                kinds_ = [c_.value]
+            body_ = [st for st in node.body if isinstance(st, ast.Assign)]
+            if kinds_ and len(body_) == 1 and isinstance(body_[0].value, ast.Subscript) and dotted(body_[0].value.value) == f"{nl.args.args[0].arg}.operands" \
+                    and isinstance(body_[0].value.slice, ast.Constant):
+                for k_ in kinds_:
+                    descend[k_] = body_[0].value.slice.value
+    if len(descend) < 10:
+        raise AnalysisError(f"expr.py::normalize_like: only {len(descend)} kinds recognised in its descent chain")
+    bad86, tot86 = [], 0
+    for kind, idx_ in sorted(descend.items()):
+        n = arities.get(kind)
+        if n is None or n < 2 or kind not in T.kinds or kind == "constant":
+            continue
+        for dts in valid_operand_dtypes(kind, n, tier):
+            if kind == "select" and dts[0] != "bool":
+                continue
+            ops = tuple(ctx.symbol(f"s{i}_{d}", to_atype(d)) for i, d in enumerate(dts))
+            e = ctx.make(kind, ops)
+            try:
+                st = I.call(I.getattr(e, "get_type", ""), [])
+            except (PyRaise, Unsupported):
+                continue
+            tot86 += 1
+            if from_atype(st) != dts[idx_] and "bool" not in (from_atype(st), dts[idx_]):
+                bad86.append(f"{kind}({', '.join(dts)}): type {from_atype(st)}, replaced by operand {idx_} of type {dts[idx_]}")
+    kinds86 = sorted({b.split("(")[0] for b in bad86})
+    r.ob("R8.6", "expr.py::normalize_like keeps the type of the like expression" + (f": narrowed for mixed operand types of {', '.join(kinds86)}" if bad86 else ""), not bad86,
+         f"normalize_like replaces an operation by one operand whatever the operand types: {'; '.join(bad86[:3])} ... - a constant built `like` such an expression is "
+         "materialised in the narrower type: (x32 + y64) * constant(0.1, x32 + y64) multiplies by numpy.float32(0.1) and returns 0.30000000447 for (1, 2)", loc("expr.py", nl),
+         sample=dict(rule="R8.6", kinds=len(descend), combinations=tot86, narrowed=len(bad86)))
 
     # ------------------------------------------------------------------ R8.5 constants typed by a bare scalar type
     # `ctx.constant(v, float)` / `(v, int)` / `(v, "int64")`: the like operand is a type without a width (or an integer type).  The
